@@ -22,7 +22,9 @@ def ref_classify(line):
     """-> (kind, fields) for a right-stripped, non-empty, non-comment line"""
     s = line
     for head, ok in (('not ok', False), ('ok', True)):
-        if s.startswith(head):
+        # a test line is the WORD ok (TAP: `ok` / `not ok`, then a blank or the end; Test::Harness reads /(?:not )?ok\b/):
+        # `okay then`, `ok1`, `ok_` are ordinary text
+        if s.startswith(head) and not (len(s) > len(head) and (s[len(head)].isalnum() or s[len(head)] == '_')):
             rest = s[len(head):]
             r2 = rest.lstrip(' \t\r\n\f\v')
             num = None
@@ -158,7 +160,7 @@ def real_events(lines):
     return out
 
 
-ALPHA = ['ok', 'not ok', 'ok 1', 'ok 2', 'ok 3', 'not ok 2 # TODO x', 'ok 1 # SKIP', 'ok # skip', 'not ok # SKIP', 'ok 1 # FOO', '1..2', '1..0',
+ALPHA = ['ok', 'not ok', 'okay', 'ok 1', 'ok 2', 'ok 3', 'not ok 2 # TODO x', 'ok 1 # SKIP', 'ok # skip', 'not ok # SKIP', 'ok 1 # FOO', '1..2', '1..0',
          '1..0 # SKIP r', '1..2 # skip', '1..1 # TODO', 'TAP version 13', 'TAP version 12', 'Bail out! x', '  ---', '  ...', '  k: v', ' x', '# c', '',
          'garbage', 'ok 1 name # TODO', 'ok 0', 'ok 3 - three']
 
